@@ -603,7 +603,13 @@ def run_scenario(spec, sampling=False, run_on=True, explicit_shutdown=False,
 
         with contextlib.redirect_stdout(out):
             try:
-                value = top.run()
+                entry = spec.get('entry', 'run')
+                if entry == 'orchestrate':
+                    value = top.orchestrate()
+                elif entry == 'co_run':
+                    value = loop.run_until_complete(top.co_run())
+                else:
+                    value = top.run()
                 trace.outcome = dict(how='return', obj=rec.tok(value))
             except Deadlock:
                 trace.outcome = dict(how='deadlock')
